@@ -10,6 +10,8 @@ use std::fmt::Debug;
 use std::marker::PhantomData;
 
 pub(crate) mod aggregate;
+#[cfg(chalk_verif)]
+pub use aggregate::verif_merge_into_guidance;
 mod resolvent;
 
 #[derive(Clone, Debug, HasInterner)]
@@ -375,4 +377,14 @@ impl<I: Interner> MayInvalidate<I> {
             .zip(current_substitution.iter(interner))
             .any(|(new, current)| self.aggregate_generic_args(new, current))
     }
+}
+
+/// Verification hook: the crate-private check "could this future answer change the guidance?".
+#[cfg(chalk_verif)]
+pub fn verif_may_invalidate<I: Interner>(
+    interner: I,
+    new: &Substitution<I>,
+    current: &Canonical<Substitution<I>>,
+) -> bool {
+    new.may_invalidate(interner, current)
 }
